@@ -10,6 +10,8 @@ import time
 from .tlc import VERIF
 
 KNOWN = os.path.join(VERIF, 'known_findings.jsonl')
+# mutation/self-test runs redirect their evidence and replay files so that the committed evidence is never overwritten
+OUT = os.environ.get('VF_OUT') or VERIF
 
 
 def load_known():
@@ -94,7 +96,7 @@ class Report:
                 fresh.append(v)
         for v in hits:
             print('KNOWN-FINDING: property={} {} [key={}] (x{})'.format(self.pid, knownkeys[v['key']].get('what', v['what']), v['key'], v['count']))
-        rdir = os.path.join(VERIF, 'replays', self.pid)
+        rdir = os.path.join(OUT, 'replays', self.pid)
         os.makedirs(rdir, exist_ok=True)
         for i, v in enumerate(fresh):
             path = os.path.join(rdir, '{}-{}-{}.json'.format(self.tier, self.seed, i))
@@ -116,8 +118,8 @@ class Report:
         cov.update(self.extra)
         ev = dict(property_id=self.pid, tier=self.tier, seed=int(self.seed), level=self.level, coverage=cov,
                   assumptions=self.assumptions, wall_s=round(time.time() - self.t0, 2), violations=len(fresh))
-        os.makedirs(os.path.join(VERIF, 'evidence'), exist_ok=True)
-        with open(os.path.join(VERIF, 'evidence', self.pid + '.json'), 'w') as f:
+        os.makedirs(os.path.join(OUT, 'evidence'), exist_ok=True)
+        with open(os.path.join(OUT, 'evidence', self.pid + '.json'), 'w') as f:
             json.dump(ev, f, indent=1, default=str)
         print('{}: tier={} seed={} states={} transitions={} traces={} evaluations={} nontrivial={} known={} violations={} wall={:.1f}s'.format(
             self.pid, self.tier, self.seed, self.states, self.transitions, self.traces, self.evaluations, len(self.nontrivial), len(hits), len(fresh), time.time() - self.t0))
